@@ -92,13 +92,18 @@ def make_qpu(w, tid, n: int):
             psi = dual_rail_amplitudes(o, n)
             items = [(lw.State(y), float(abs(a) ** 2))
                      for (_b, y), a in zip(dual_rail_outputs(n), psi, strict=True)]
+            # rounding noise is cut *relative to the accepted total*: the
+            # reconstructed state is conditional on success, so an absolute
+            # cut-off would be amplified by 1 / (success probability)
+            tot = sum(p for _s, p in items)
+            cut = 1e-12 * tot
             if ctl.get("zeros"):
                 # a full table: every dual-rail outcome in lexicographic order,
                 # impossible ones with frequency exactly zero
-                items = [(s, p if p > 1e-12 else 0.0) for s, p in items]
+                items = [(s, p if p > cut else 0.0) for s, p in items]
             else:
                 # a device never reports outcomes at the level of rounding noise
-                items = [(s, p) for s, p in items if p > 1e-12]
+                items = [(s, p) for s, p in items if p > cut]
                 rng.shuffle(items)
             results[i] = dict(items)
         return results
